@@ -207,10 +207,27 @@ class RealPeer:
                 os.environ.pop(k, None)
             else:
                 os.environ[k] = v
+        self._once = None
+        self._saved_once = os.environ.get('VERIF_GPG_ONCE')
+        if self.fault and self.fault.startswith('signonce-'):
+            import tempfile
+            fd, self._once = tempfile.mkstemp(prefix='vsim.once.', dir='/dev/shm' if os.path.isdir('/dev/shm') else None)
+            os.close(fd)
+            os.unlink(self._once)
+            os.environ['VERIF_GPG_ONCE'] = self._once
         return self
 
     def __exit__(self, *a):
         gemato.openpgp.GNUPG = self._saved[0]
+        if self._once is not None:
+            try:
+                os.unlink(self._once)
+            except OSError:
+                pass
+        if self._saved_once is None:
+            os.environ.pop('VERIF_GPG_ONCE', None)
+        else:
+            os.environ['VERIF_GPG_ONCE'] = self._saved_once
         for k, v in (('VERIF_GPG_FAKETIME', self._saved[1]), ('VERIF_GPG_FAULT', self._saved[2])):
             if v is None:
                 os.environ.pop(k, None)
